@@ -12,13 +12,14 @@ import (
 func init() { Registry["C18"] = checkC18 }
 
 func checkC18(p *core.Prog, r *core.Report) {
-	r.Explanation = "Decides structural necessary conditions of disconnect semantics: (R1) Server.handle reaches serverProtocol.Close() on every path after a successful protocol detection (the failing path closes the stream); (R2) every Close of a connection protocol is a test-and-set under its mutex that takes ownership of the will queue (copied to a local, field cleared) before the mutex is released, and drains the local copy with every queued command handed to the engine entry regardless of earlier results; (R3) will registration never executes: the registration arms push to the will queue, rewrite the command type to LOCK/UNLOCK before the push (otherwise Close would only re-register it), and call no engine function; (R4) registration uses Push (tail) and the drain uses Pop (head) of the same queue; (R5) proxies are repointed to the default protocol inside the critical section that sets closed, and AddProxy reports success only after tracking the proxy (and refuses when closed); (R6) replies are re-routed by the connection's own client id, never to the closing connection itself, and Close removes the client-id entry only if it still maps to this connection. (R7) the code that registers a will (pushes the command object onto the connection's will queue) does not return that object to the command pool on the same path. NOT decided: exactly-once when a close races the drain on a follower whose leader is unreachable, leaks of queued requests, delivery after reconnect."
+	r.Explanation = "Decides structural necessary conditions of disconnect semantics: (R1) Server.handle reaches serverProtocol.Close() on every path after a successful protocol detection (the failing path closes the stream); (R2) every Close of a connection protocol is a test-and-set under its mutex that takes ownership of the will queue (copied to a local, field cleared) before the mutex is released, and drains the local copy with every queued command handed to the engine entry regardless of earlier results; (R3) will registration never executes: the registration arms push to the will queue, rewrite the command type to LOCK/UNLOCK before the push (otherwise Close would only re-register it), and call no engine function; (R4) registration uses Push (tail) and the drain uses Pop (head) of the same queue; (R5) proxies are repointed to the default protocol inside the critical section that sets closed, and AddProxy reports success only after tracking the proxy (and refuses when closed); (R6) replies are re-routed by the connection's own client id, never to the closing connection itself, and Close removes the client-id entry only if it still maps to this connection. (R7) the code that registers a will (pushes the command object onto the connection's will queue) does not return that object to the command pool on the same path. (R8) the will drain dispatches through the closing protocol object itself, and a loop repointing every tracked proxy dominates the truncation of the proxy list. NOT decided: exactly-once when a close races the drain on a follower whose leader is unreachable, leaks of queued requests, delivery after reconnect."
 	r.Assumptions = []string{"Go type checker and go/ssa are correct for /repo"}
 	c18R1(p, r)
 	c18R2(p, r)
 	c18R3(p, r)
 	c18R6(p, r)
 	c18R7(p, r)
+	c18R8(p, r)
 	c18R5(p, r)
 }
 
@@ -615,4 +616,165 @@ func c18Obj(s string) string {
 		s = s[len("iface(") : len(s)-1]
 	}
 	return s
+}
+
+// c18R8: two details of Close that the reply routing after a disconnect
+// depends on. (a) The drain executes the wills through the closing
+// connection's own protocol object: the engine's same-connection fast path
+// compares a waiter's protocol with the executing one, and the shared sentinel
+// object (what every closed connection's proxies point to) would match the
+// waiters of every closed connection - their grants would be dropped instead
+// of re-routed by client id. (b) Every proxy the connection tracks - its own
+// and those adopted from earlier connections of the same client id - is
+// repointed to the sentinel before the list is cut back to the own proxy;
+// an adopted proxy left pointing at the closed object is never re-routed.
+func c18R8(p *core.Prog, r *core.Report) {
+	const rule = "C18/R8"
+	r.Rule(rule, "Close: the will drain dispatches through the closing protocol object itself, and the loop that repoints every tracked proxy dominates the truncation of the proxy list", 4)
+	for _, name := range []string{"server.(*BinaryServerProtocol).Close", "server.(*TextServerProtocol).Close"} {
+		fn := mustFunc(p, r, name)
+		if fn == nil {
+			continue
+		}
+		// (a) receiver of the drain's dispatch
+		nDispatch := 0
+		for _, b := range fn.Blocks {
+			for _, ins := range b.Instrs {
+				ci, ok := ins.(ssa.CallInstruction)
+				if !ok {
+					continue
+				}
+				nm, recv := "", ssa.Value(nil)
+				if ci.Common().IsInvoke() {
+					nm, recv = ci.Common().Method.Name(), ci.Common().Value
+				} else if c := ci.Common().StaticCallee(); c != nil && c.Signature.Recv() != nil && len(ci.Common().Args) > 0 {
+					nm, recv = c.Name(), ci.Common().Args[0]
+				}
+				if nm != "ProcessCommad" {
+					continue
+				}
+				nDispatch++
+				key := name + ": will dispatch receiver"
+				if recv == ssa.Value(fn.Params[0]) {
+					r.Hold(rule, key, p.InstrPos(ins), "dispatched through the closing protocol object")
+				} else {
+					r.Violate(rule, key, p.InstrPos(ins), "the drain executes the wills through an object other than the closing connection's protocol: with the shared sentinel as the executing protocol the engine's same-connection fast path matches the waiters of every closed connection and their grants are dropped instead of being re-routed to the reconnected client", nil)
+				}
+			}
+		}
+		if nDispatch == 0 {
+			r.Fail("C18/R8 %s: no will dispatch (ProcessCommad) found", name)
+		}
+		// (b) repoint loop dominates the truncation (looked for in Close and in helpers of the
+		// same receiver that did not exist when the rule was confirmed)
+		var phiOf func(v ssa.Value, d int) *ssa.Phi
+		phiOf = func(v ssa.Value, d int) *ssa.Phi {
+			if d > 4 {
+				return nil
+			}
+			switch t := v.(type) {
+			case *ssa.Phi:
+				return t
+			case *ssa.BinOp:
+				if ph := phiOf(t.X, d+1); ph != nil {
+					return ph
+				}
+				return phiOf(t.Y, d+1)
+			case *ssa.Convert:
+				return phiOf(t.X, d+1)
+			}
+			return nil
+		}
+		scan := func(f *ssa.Function) (truncs []*ssa.Store, heads []*ssa.BasicBlock) {
+			isProxysLoad := func(v ssa.Value) bool {
+				u, ok := v.(*ssa.UnOp)
+				if !ok {
+					return false
+				}
+				fa, ok := u.X.(*ssa.FieldAddr)
+				return ok && core.FieldKeyOf(fa.X.Type(), fa.Field).Field == "proxys" && fa.X == ssa.Value(f.Params[0])
+			}
+			for _, b := range f.Blocks {
+				for _, ins := range b.Instrs {
+					st, ok := ins.(*ssa.Store)
+					if !ok {
+						continue
+					}
+					fa, ok := st.Addr.(*ssa.FieldAddr)
+					if !ok {
+						continue
+					}
+					k := core.FieldKeyOf(fa.X.Type(), fa.Field)
+					if k.Field == "proxys" && fa.X == ssa.Value(f.Params[0]) {
+						if sl, ok := st.Val.(*ssa.Slice); ok && isProxysLoad(sl.X) {
+							truncs = append(truncs, st)
+						}
+					}
+					if k.Type == "server.ProxyServerProtocol" && k.Field == "serverProtocol" {
+						if u, ok := fa.X.(*ssa.UnOp); ok {
+							if ia, ok := u.X.(*ssa.IndexAddr); ok && isProxysLoad(ia.X) {
+								if ph := phiOf(ia.Index, 0); ph != nil {
+									heads = append(heads, ph.Block())
+								}
+							}
+						}
+					}
+				}
+			}
+			return
+		}
+		truncs, loopHeads := scan(fn)
+		// helpers: a call to a new same-receiver method that repoints all proxies counts as
+		// the loop (at the call's block); one that also truncates is checked in itself
+		for _, b := range fn.Blocks {
+			for _, ins := range b.Instrs {
+				c := core.StaticCallee(ins)
+				if c == nil || !p.IsNewFunc(c) || c.Blocks == nil || recvName(c) != recvName(fn) {
+					continue
+				}
+				if args := core.CallArgs(ins); len(args) == 0 || args[0] != ssa.Value(fn.Params[0]) {
+					continue
+				}
+				ht, hh := scan(c)
+				if len(hh) > 0 && len(ht) == 0 {
+					loopHeads = append(loopHeads, b)
+				}
+				for _, t := range ht {
+					key := name + ": proxies repointed before the list is truncated"
+					ok := false
+					for _, h := range hh {
+						if h.Dominates(t.Block()) {
+							ok = true
+						}
+					}
+					truncs = append(truncs, nil)
+					if ok {
+						r.Hold(rule, key, p.InstrPos(t), "a loop over all tracked proxies repoints them first (in "+c.Name()+")")
+					} else {
+						r.Violate(rule, key, p.InstrPos(t), "the proxy list is cut back to the connection's own proxy without a preceding loop that repoints every tracked proxy", nil)
+					}
+				}
+			}
+		}
+		for _, t := range truncs {
+			if t == nil {
+				continue
+			}
+			key := name + ": proxies repointed before the list is truncated"
+			ok := false
+			for _, h := range loopHeads {
+				if h.Dominates(t.Block()) {
+					ok = true
+				}
+			}
+			if ok {
+				r.Hold(rule, key, p.InstrPos(t), "a loop over all tracked proxies repoints them first")
+			} else {
+				r.Violate(rule, key, p.InstrPos(t), "the proxy list is cut back to the connection's own proxy without a preceding loop that repoints every tracked proxy: a proxy adopted from an earlier connection of the same client id keeps pointing at this closed object, so replies for that connection's requests are answered \"closed\" instead of being re-routed to the client's current connection", nil)
+			}
+		}
+		if len(truncs) == 0 {
+			r.Fail("C18/R8 %s: truncation of the proxy list not found", name)
+		}
+	}
 }
